@@ -1,6 +1,7 @@
 mod framebuild;
 mod pduloop;
 mod rng;
+mod rxtriage;
 mod vsched;
 
 fn usage() -> ! {
@@ -10,7 +11,7 @@ fn usage() -> ! {
 
 fn main() {
     // Panics in the code under test are data, not noise.
-    std::panic::set_hook(Box::new(|_| {}));
+    if std::env::var("VHARNESS_PANIC_VERBOSE").is_err() { std::panic::set_hook(Box::new(|_| {})); }
     let args: Vec<String> = std::env::args().collect();
     if args.len() < 2 {
         usage();
@@ -30,6 +31,8 @@ fn main() {
         }
         "framebuild-replay" => framebuild::replay(&args[2], &args[3], args[4].parse().unwrap()),
         "framebuild-random" => framebuild::random(args[2].parse().unwrap(), args[3].parse().unwrap(), &args[4]),
+        "rxtriage-replay" => rxtriage::replay(&args[2], &args[3]),
+        "rxtriage-random" => rxtriage::random(args[2].parse().unwrap(), args[3].parse().unwrap(), &args[4]),
         _ => usage(),
     };
     if let Err(e) = r {
